@@ -86,14 +86,15 @@ example : (sqrtLo 4 3 : Rat) ≤ 2 ∧ (2 : Rat) ≤ (sqrtHi 4 3 : Rat) :=
   sqrt_enclosed (K := Rat) 4 (by norm_num) 2 (by norm_num) (by norm_num) 3
 
 /-- every edge of the explicit graph the driver builds stands for a spec-unblocked segment between two
-    of the given points, with a certified enclosure of its Euclidean length: taking the Euclidean
-    lengths as true weights satisfies the hypothesis of `checkCert_sound`. -/
+    of the given points — the points its indices `e.u ≠ e.v` name —, with a certified enclosure of its Euclidean
+    length: taking the Euclidean lengths as true weights satisfies the hypothesis of `checkCert_sound`. -/
 theorem specGraph_edges_ok (shapes : List Poly) (excl : List Nat) (k : Nat) (pts : List Pt) (e : WEdge)
     (he : e ∈ specGraph shapes excl k pts) :
-    ∃ p ∈ pts, ∃ q ∈ pts, Unblocked shapes excl p q ∧
+    ∃ p ∈ pts, ∃ q ∈ pts, pts[e.u]? = some p ∧ pts[e.v]? = some q ∧ e.u ≠ e.v ∧ Unblocked shapes excl p q ∧
       ∀ d : K, 0 ≤ d → d * d = ((sqDist p q : Rat) : K) → (e.wlo : K) ≤ d ∧ d ≤ (e.whi : K) := by
-  obtain ⟨p, hp, q, hq, hub, hlo, hhi⟩ := specGraphFrom_sound shapes excl k pts pts 0 e he
-  refine ⟨p, hp, q, hq, hub, fun d hd hdx => ?_⟩
+  obtain ⟨hne, m, p, q, hp, hu, hq, hub, hlo, hhi⟩ := specGraphFrom_index shapes excl k pts pts 0 e he
+  have hpu : pts[e.u]? = some p := by rw [hu, Nat.zero_add]; exact hp
+  refine ⟨p, List.mem_of_getElem? hpu, q, List.mem_of_getElem? hq, hpu, hq, hne, hub, fun d hd hdx => ?_⟩
   rw [hlo, hhi]
   exact AdaptaVerif.Lemmas.Sqrt.sqrt_between_field _ (sqDist_nonneg p q) d hd hdx k
 
